@@ -541,6 +541,26 @@ func run(r *mon.Run) {
 					}
 				}
 			}
+			// sections whose name belongs to the other version, with well-formed content for that name and with decoy index
+			// content: whatever the reader makes of them, it must find the sections after them where they are
+			for _, nm := range []string{"manifest", "primary", "critical", "signatures"} {
+				known := false
+				for _, o := range order {
+					known = known || o == nm
+				}
+				if known {
+					continue
+				}
+				for pos := 0; pos < len(order); pos++ {
+					for ui, content := range [][]byte{rcbor.Text("https://other.example/m"), decoy, rcbor.Cat(rcbor.ArrayHead(1), rcbor.Text("x"))} {
+						t := *s
+						t.SectionOrder = append(append(append([]string{}, order[:pos]...), nm), order[pos:]...)
+						t.Raw = map[string][]byte{nm: content}
+						x, _ := t.Build(nil)
+						judge(r, x, "foreign-section", fmt.Sprintf("%s/%s/at%d/content%d", name, nm, pos, ui), false, 29)
+					}
+				}
+			}
 			// a known section name carrying another section's content / garbage
 			for _, nm := range order[:len(order)-1] {
 				t := *s
